@@ -201,3 +201,6 @@ for _p in ["C01", "C02", "C03", "C04", "C05", "C08", "C09", "C10", "C11", "C12",
     PROPS[_p]["fine"] = True
     PROPS[_p]["real"] = [r.replace("built from /repo's working tree with -tags verif", "built from a copy of /repo's working tree, taken when the check starts, into which /verif/sim/instrument inserted lock probes and yield points (go/ast; tags 'verif verifpt'); the plain tree with -tags verif if that build fails") for r in PROPS[_p]["real"]]
     PROPS[_p]["assumptions"] = PROPS[_p]["assumptions"] + ["the workers run a copy of /repo's working tree into which go/ast inserted a lock probe before every Lock / RLock statement and a yield point before the statements of hc's functions (not inside loops, not in functions that take a lock themselves); in a quarter of the workers a per-run subset of the yield points are park points"]
+
+# C20's concurrency (pairing changes on two connections) only shows at statement granularity
+PROPS["C20"]["fine_fraction"] = 0.5
